@@ -96,7 +96,11 @@ QueueSize == 2      \* the driver runs every server with AnswerQueueSize 2
 PipesOn(c) == SelectSeq(pipes, LAMBDA x : x[2] = c)
 PipeDelivered == /\ Ev("pipe-delivered") /\ Consume
                  /\ LET c == LookupI(pipes, E.i) IN
-                    /\ c # 0 - 1 /\ c \in returned /\ Lookup(retres, c) = "ok"        \* only after the answer returned successfully
+                    \* only after the answer returned successfully; a call pipelined on a pipelined call (ids from 100) only
+                    \* after that call was delivered
+                    /\ c # 0 - 1
+                    /\ IF c >= 100 THEN c \in { delivered[k] : k \in 1..Len(delivered) }
+                                   ELSE c \in returned /\ Lookup(retres, c) = "ok"
                     \* in the order the pipelined calls were made on that answer
                     \* - except that calls which found the answer's queue full (QueueSize entries) are all blocked inside
                     \* PipelineSend at the same time, i.e. were made concurrently: no order among them, but behind the queued ones
